@@ -2,6 +2,7 @@ import Dashu.Driver.IO
 import Dashu.Driver.Loop
 import Dashu.Spec.Panics
 import Dashu.Model.Panic.Guards
+import Dashu.Model.Panic.GuardsMore
 /-
   Driver of group `panic` (C16).  The MODEL of this property is the documentation
   (`Dashu.Spec.Panics.verdict`): for each case line the driver prints what the documentation promises —
@@ -48,7 +49,7 @@ def dispatch (W : Nat) (op0 : String) (args : List String) : Option String := do
   let as ← args.mapM parseArg
   let v ← verdict W op as
   let out := showVerdict v
-  match Dashu.Model.Panic.guardModel W op as with
+  match (Dashu.Model.Panic.guardModel W op as <|> Dashu.Model.Panic.guardModelMore W op as) with
   | none => some out
   | some g =>
     let gs := match g with
